@@ -60,7 +60,7 @@ def _job(args):
             d['witness'] = _point_dump(r.get('witness'))
             out['results'].append(d)
         # ---- native cross-check + replay of witnesses ---------------------------
-        if run.error is None:
+        if run.error is None or run.error.startswith('PathLimit'):
             pts = list(pool[:ncross])
             cross_bad = []
             npts = 0
@@ -154,6 +154,11 @@ def run_property(prop, modname, tier, seed, replay_dir=None, jobs=None):
     extra = []
     if hasattr(mod, 'extra_checks'):
         extra = mod.extra_checks(tier, seed)
+    if getattr(mod, 'LEAN_LEMMAS', None) and tier == 'thorough':
+        from pvc import leancheck
+        extra = list(extra) + [dict(name='ghost lemmas (Lean 4 + Mathlib)', results=leancheck.results(mod.LEAN_LEMMAS, tier),
+                                    notes=['ghost lemmas ' + ', '.join(mod.LEAN_LEMMAS) + ' of /verif/lean/Ghost.lean checked by '
+                                           'lean (thorough tier): the induction / composition steps of the meta-argument'])]
     return finish(prop, mod, tier, seed, outs, extra, t0)
 
 
